@@ -23,6 +23,21 @@ CLAIMED = {
  "C04": dict(ref="7/C04", technique="Lean 4 theorems (congruence of every operation under permutation of storage order, via permutation invariance of nested sums proved by induction on List.Perm) + correspondence streams exhaustive over all storage orders of every operand",
              text="Machine-checked proof: label-equal (permuted and transposed) operands give label-equal results for add/sub/min/max, mul, div, sum_to, cast_to, cumsum and dict-key reads, and the result's own order follows the documented rule (left operand / requested / target). The correspondence streams enumerate every storage order of every operand (ordered subsets) with equal-length dimensions, so a silent transposition in the implementation is a disagreement.",
              note="DataFrame export/import, stacking/splitting and the lifetime-parameter cast are tied by their own properties' streams (C11, C08); slice assignment order-independence is covered by the index correspondence and C05's label-level spec"),
+ "C03": dict(ref="7/C03", technique="Lean 4 theorems over an arbitrary field (telescoping balance for all three stock classes on any time grid, forward substitution solves the triangular system, check_stock_balance decision logic) + translator-regenerated einsum literals and thresholds + dsm correspondence with scipy's values fed to the model",
+             text="Machine-checked proof: bounds sit at midpoints with mirrored ends and all interval lengths are positive for increasing items; for the flow-driven, inflow-driven and stock-driven (manual solver; LAPACK by its specification) models, stock(t)-stock(t-1) = dt(t)*(inflow(t)-outflow(t)) at every step and label for every lower-triangular survival table, every grid and all driver values (also negative inflow); the balance array vanishes on computed stocks, check_stock_balance accepts them and rejects any array with a balance entry beyond the threshold. Unbounded in the number of time steps and labels.",
+             note="IEEE rounding not modelled (exact identities over fields); scipy/LAPACK modelled by specification; the einsum ellipsis acts per label column (modelled); thresholds and subscripts regenerated from the source"),
+ "C08": dict(ref="7/C08", technique="Lean 4: kernel-decided facts about the regenerated Gauss-Lobatto tables (all 10 rules: order, symmetry, weight sums, polynomial exactness up to degree 2n-3 and not beyond), order-field theorems about the survival/outflow tables, real-analysis theorems about the regenerated scipy arguments (log-normal mean and variance, folded normal, Weibull, normal, fixed) + dsm correspondence",
+             text="Machine-checked proof: the survival table is zero above the diagonal, equals the quadrature average of the survival function at the ages bounds(t+1) - (eta*bounds(c+1) + (1-eta)*bounds(c)), lies in [0, sum of weights], never increases with age, and sf + cumulative outflow probability = 1 with non-negative probabilities; the arguments the code hands to scipy reproduce the declared mean / standard deviation (log-normal: exp(mu+s^2/2) = mean and (exp(s^2)-1)exp(2mu+s^2) = std^2, proved over the reals from the regenerated expressions); the ten quadrature tables are checked exhaustively by kernel evaluation on the exact doubles.",
+             note="scipy.stats survival functions are a parameter of the model, assumed to be the named distributions (non-increasing, values in [0,1]); the search oracle compares with closed forms via erf/exp; rounding not modelled"),
+ "C09": dict(ref="7/C09", technique="Lean 4 theorems (cohort sums, triangularity, cohort formula, telescoping cohort conservation, monotonicity) for both DSM classes + dsm correspondence",
+             text="Machine-checked proof: stock and outflow are the cohort sums of the by-cohort tables, both tables vanish for cohorts later than the year, cohort stock = inflow*dt*survival share, it never increases for non-negative inflow, and inflow(c)*dt(c) = stock_by_cohort(t,c) + sum_{s<=t} outflow_by_cohort(s,c)*dt(s); for the inflow-driven and stock-driven model, any grid, any number of steps and labels.",
+             note="as C03"),
+ "C10": dict(ref="7/C10", technique="Lean 4 theorems (forward substitution solves and is the unique solution of the triangular system => inverse relation both ways, solver agreement by specification) + dsm correspondence running both solvers",
+             text="Machine-checked proof: stockDriven(inflowDriven(i).stock) returns i, the same outflow and cohort tables; inflowDriven(stockDriven(s).inflow) reproduces s (also for stocks implying negative inflow); any solution of the triangular system (what LAPACK trtrs is specified to return) equals the manual solver's result. Hypothesis: sf(t,t) != 0 for every cohort.",
+             note="LAPACK modelled by its specification; conditioning/rounding for small sf(t,t) not modelled (generators keep sf(t,t) >= 0.05 as the property states)"),
+ "C16": dict(ref="7/C16", technique="Lean 4 theorems (causality by triangularity / strong induction, linearity via uniqueness of the triangular solve, per-label independence, calendar-shift invariance of bounds/dt/ages, impulse response) + dsm correspondence incl. unit impulses",
+             text="Machine-checked proof: results at step t depend only on driver values at steps <= t; the maps driver -> stock/outflow/cohort tables are linear; the results at a label position equal those of the one-label model on that column; shifting all time items by a constant changes neither interval lengths nor ages; the response to a unit inflow in one cohort is that cohort's survival column times its interval length and leaves other labels untouched.",
+             note="as C03"),
 }
 
 def main():
